@@ -506,6 +506,7 @@ class World:
                         by_name[acc] = freeze(getattr(row, acc))
                     except Exception:  # noqa: BLE001
                         pass
+            by_name["<schema>"] = _sch(row)
             self.rows.append((self.new_token(), row, (tuple(freeze(x) for x in row), by_name), a.id))
             del self.rows[:-4]
         return si
@@ -797,10 +798,17 @@ class World:
             tw = self._twin(a.obj[key])
             if tw is not None:
                 form, val = "scalar", tw       # an equal value of the next rung over the element itself (1 -> 1.0, a day -> its midnight)
-        wrong_len = (step[3] % 7 == 0) and form == "list"
+        donor = None
+        if form == "list" and step[3] % 4 == 2 and m:
+            # the new values come as a vector the program holds (a bystander of the write: read, never changed)
+            cands = [e for e in self.live("vec") if e is not a and len(e.obj) == m and e.obj is not a.obj]
+            if cands:
+                donor = cands[step[2] % len(cands)]
+                val = donor.obj
+        wrong_len = (step[3] % 7 == 0) and form == "list" and donor is None
         if wrong_len:
             val = val + [0]
-        elif form == "list" and isinstance(key, slice) and m == n and n and step[3] % 2 == 1:
+        elif donor is None and form == "list" and isinstance(key, slice) and m == n and n and step[3] % 2 == 1:
             # every position is overwritten, and the values come as one of the caller-owned tuples (vectors built over it may
             # be alive): the written vector owns its storage all the same
             fits = [tp for tp, _tok in self.tuples.values() if len(tp) == n]
@@ -809,8 +817,10 @@ class World:
         si = StepInfo(name, "write")
         si.operands = [a]
         si.may_change = self.write_set(a)
-        si.info.update(key=key, form=form, value=val, positions=positions, target=a.id, before=snap(a.obj), wrong_len=wrong_len,
-                       token_before=a.token)
+        si.info.update(key=key, form=form, value=(list(val) if donor is not None else val), positions=positions, target=a.id, before=snap(a.obj),
+                       wrong_len=wrong_len, token_before=a.token)
+        if donor is not None:
+            si.operands.append(donor)
 
         def do():
             a.obj[key] = val
